@@ -263,6 +263,84 @@ def run(ctx):
            "a line that is not a command changes nothing but the notification", hi.loc(),
            "machine calls %s; written: %s" % (got, sorted(wr)))
 
+    # the command that is executed is the parse of the newest history entry (which the editor clause shows
+    # to be the submitted line)
+    parsed = []
+
+    def parse_stub(I_, st_, depth, callee, args, body, ln):
+        a0 = args[0]
+        v0 = I_.load(st_, a0.alloc, a0.path) if isinstance(a0, Ref) else a0
+        parsed.append(v0)
+        return En({0: (Opaque("CMD"),)})
+    for label, hist, want_arg, want_res in (("two-entries", Arr([Opaque("OLDER"), Opaque("NEWEST")]), [Opaque("NEWEST")], En({1: (Opaque("CMD"),)})),
+                                            ("empty", Arr(()), [], En({0: ()}))):
+        I = absint.Interp(p)
+        I.fn_overrides[CMD + "::<'a>::parse"] = parse_stub
+        st = absint.State()
+        isv = shapes.build(p, IS, shapes.top_leaf, (), {"history": hist})
+        ia = I.new_alloc(st, "editor", isv)
+        del parsed[:]
+        r = I.run_body(p.need_body(IS + "::last_cmd"), [Ref(ia, (), False)], st, 0)
+        chk.ob("dispatch/last-cmd/%s" % label, parsed == want_arg and r == want_res,
+               "the command handed to the dispatch is the parse of the newest history entry (none for an empty history)",
+               p.need_body(IS + "::last_cmd").loc(), "parsed %s, result %r" % (parsed, r),
+               "abstract interpretation of InputState::last_cmd with a recording stand-in for Command::parse")
+    hib = p.need_body(TUI + "::handle_input")
+    order = [mirutil.callee_name(t) for _, t in mirutil.calls_in(hib)]
+    first_handle = order.index(IS + "::handle") if IS + "::handle" in order else None
+    first_last = order.index(IS + "::last_cmd") if IS + "::last_cmd" in order else None
+    dom = mirutil.dominators(hib)
+    bbs = {mirutil.callee_name(t): bb for bb, t in mirutil.calls_in(hib)}
+    chk.ob("dispatch/enter-before-last-cmd", first_handle is not None and first_last is not None
+           and bbs[IS + "::handle"] in dom[bbs[IS + "::last_cmd"]],
+           "Tui::handle_input hands Enter to the editor before it asks for the newest history entry",
+           hib.loc(), "call order: %s" % [o.rsplit("::", 1)[-1] for o in order if o and o.startswith(IS)])
+
+    # the wrapper methods the dispatch relies on by name do what their names say
+    MS = "B::tui::supervisor_wrapper::MachineState"
+    msn = p.field_names(MS)
+    sm_t = p.need_type("L::machine::StepMode")
+    smv = {v["n"]: i for i, v in enumerate(sm_t["variants"])}
+
+    def run_ms(fn, overrides, extra_args=()):
+        I = absint.Interp(p)
+        st = absint.State()
+        v = shapes.build(p, MS, shapes.top_leaf, (), overrides)
+        a = I.new_alloc(st, "ms", v)
+        I.events.clear()
+        I.run_body(p.need_body(MS + "::" + fn), [Ref(a, (), True)] + list(extra_args), st, 0)
+        wr = {shapes.name_path(p, MS, e.info[1]) for e in I.events if e.kind == "write" and e.info[0] == a}
+        return I, st, a, wr
+    for frm, to in (("Real", "Assembly"), ("Assembly", "Real")):
+        I, st, a, wr = run_ms("toggle_step_mode", {"machine.step_mode": En({smv[frm]: ()})})
+        after = I.load(st, a, (msn.index("machine"), p.field_index("L::machine::Machine", "step_mode")))
+        chk.ob("dispatch/wrapper/toggle_step_mode/%s" % frm, after == En({smv[to]: ()}) and wr <= {"machine.step_mode"},
+               "CTRL+W switches between the two step modes and touches nothing else", p.need_body(MS + "::toggle_step_mode").loc(),
+               "from %s: now %r, written %s" % (frm, after, sorted(wr)))
+    for frm in (0, 1):
+        I, st, a, wr = run_ms("toggle_auto_run_mode", {"auto_run_mode": frm})
+        after = I.load(st, a, (msn.index("auto_run_mode"),))
+        chk.ob("dispatch/wrapper/toggle_auto_run_mode/%d" % frm, after in (1 - frm, bool(1 - frm)) and wr <= {"auto_run_mode"},
+               "CTRL+A flips the auto-run mode and touches nothing else", p.need_body(MS + "::toggle_auto_run_mode").loc(),
+               "from %d: now %r, written %s" % (frm, after, sorted(wr)))
+    pt = p.need_type("B::tui::supervisor_wrapper::Part") if "B::tui::supervisor_wrapper::Part" in p.types else None
+    if pt is not None:
+        for pi, pv in enumerate(pt["variants"]):
+            I, st, a, wr = run_ms("show", {}, [En({pi: ()})])
+            after = I.load(st, a, (msn.index("part"),))
+            chk.ob("dispatch/wrapper/show/%s" % pv["n"], after == En({pi: ()}) and wr <= {"part"},
+                   "`show` selects exactly the named part", p.need_body(MS + "::show").loc(), "now %r, written %s" % (after, sorted(wr)))
+    lpb = p.need_body(MS + "::load_program")
+    lcalls = [mirutil.callee_name(t) for _, t in mirutil.calls_in(lpb)]
+    chk.ob("dispatch/wrapper/load_program", "L::machine::Machine::load" in lcalls,
+           "loading through the session loads the byte code into the machine", lpb.loc(), "calls: %s" % [c for c in lcalls if c][:6])
+    tlb = p.need_body(TUI + "::load_program")
+    tcalls = [mirutil.callee_name(t) for _, t in mirutil.calls_in(tlb)]
+    need = ["B::helpers::read_asm_file", "L::compiler::Translator::compile", MS + "::load_program"]
+    chk.ob("dispatch/load-pipeline", all(n_ in tcalls for n_ in need) and [c for c in tcalls if c in need] == need,
+           "`load PATH` reads and parses the file, compiles it and loads the result (in this order)", tlb.loc(),
+           "calls: %s" % [c.rsplit("::", 2)[-2:] for c in tcalls if c in need])
+
     # ---- keys ---------------------------------------------------------------------------
     he = p.need_body(TUI + "::handle_event")
     kt = p.need_type("crossterm::event::KeyEvent")
